@@ -361,6 +361,13 @@ def handleShell (c : Ctx) (toks : List String) : Option (Ctx × List String) :=
     let eps ← parseF eps; let X ← parseVs xs; let G ← parseVs gs
     let r := filterWolfe X G eps
     some (c, [s!"filter {showVs r.1} {showVs r.2}"])
+  | ["gauss", a, b] => do
+    -- the model's elimination (the list form the theorems are about, and the array form), and its pivots
+    let A ← parseVs a; let b ← parseV b
+    let x1 := gaussSolve A b
+    let x2 := gaussSolveImp A b
+    let piv := gjPivots b.length b.length 0 (augment A b)
+    some (c, [s!"gauss {showV x1} {showV x2} {showV piv}"])
   | ["compact", xs, gs, v] => do
     let X ← parseVs xs; let G ← parseVs gs; let v ← parseV v
     let bc := compactBv X G v
